@@ -18,7 +18,7 @@
    L-suffixed decimals saturated, 010L was decimal, and 1e999 was stored as infinity (F11). *)
 From Coq Require Import List ZArith Bool.
 Import ListNotations.
-From LC Require Import Base BaseFacts Tree Fp FloatDec Api ScanAction Tokens Lexer Parser LiteralFacts RoundSpec RoundFacts FloatStable FloatStableG FloatLexeme.
+From LC Require Import Base BaseFacts Tree Fp FloatDec Api ScanAction Tokens Lexer Parser LiteralFacts RoundSpec RoundFacts FloatStable FloatStableG FloatLexeme Regex ScannerSpec FloatLexemeRegex.
 Local Open Scope Z_scope.
 
 (* decimal and octal literals, with or without the L / LL suffix *)
@@ -220,3 +220,14 @@ Theorem C08_float_lexeme_token : forall sg I hasdot F ex,
                 forall m k, 0 <= m < two53 -> 0 <= k -> Z.abs (Vof b * 10 ^ 400 - R) <= Z.abs (m * 2 ^ k * 10 ^ 400 - R))).
 Proof. exact FloatLexeme.C08_float_lexeme_token. Qed.
 Print Assumptions C08_float_lexeme_token.
+
+
+(* ------------------------------------------------------------------------------------------------------- *)
+(* the float lexemes of FloatLexeme.v are exactly the words of the documented float pattern (which the       *)
+(* compiled scanner implements, C18)                                                                          *)
+(* ------------------------------------------------------------------------------------------------------- *)
+Theorem C08_float_pattern_is_lexeme : forall w,
+  matches p_float w <->
+  exists sg I hasdot F ex, float_lexeme sg I hasdot F ex /\ w = lexeme_of sg I hasdot F ex.
+Proof. exact p_float_iff. Qed.
+Print Assumptions C08_float_pattern_is_lexeme.
